@@ -155,6 +155,21 @@ CLAIMED = {
         "domains are covered statically only; Sphinx removes system_message nodes by design.",
         "exhaustive trigger x suppress-list enumeration + Hypothesis; metamorphic (suppression) + catalogue-membership oracles; exhaustive AST call-site enumeration",
     ),
+    "C15": (
+        "Hypothesis rule-based state machines: per run a pool of 3-8 generated (document, configuration) pairs - state-"
+        "touching writers (include with MyST options, figure-md, substitutions, eval-rst roles / default-role, role "
+        "directive, html_meta, footnotes, duplicate ids and titles, amsmath, front-matter overrides, inventory links), "
+        "observer documents that would render differently if state leaked, and grammar documents - sharing 1-3 "
+        "configurations; rules parse(i) via the docutils publisher, via the renderer with one shared MdParserConfig "
+        "object, or in one long-lived Sphinx application; every step's doctree + warnings must equal the reference "
+        "computed in a pristine process (fresh fork of a server that imported but never parsed; fresh Sphinx app). Plus "
+        "generated 8-12 document Sphinx projects built with 1 vs 2-4 read workers: html files byte-identical, sorted "
+        "warnings equal; bounded search.",
+        "Parallel schedules are sampled through worker counts only; docutils' own process-wide role / directive "
+        "registries are reset between examples and not charged to MyST; a live Sphinx app and standalone docutils "
+        "parses are not mixed in one process.",
+        "Hypothesis stateful (rule-based machine) with a pristine-process reference model; differential serial-vs-parallel builds",
+    ),
     "C16": (
         "Hypothesis markup soup (totality, termination, tree consistency), grammar-generated well-formed HTML and "
         "exhaustive forests of <=4/5 nodes (exact round trip, copy/strip isolation, find = brute-force filter), "
